@@ -164,7 +164,19 @@ func sf[T any]() staticFiller {
 	return staticFiller{reflect.TypeOf((*T)(nil)).Elem(), func(w *ecs.World) ecs.ID { return ecs.ComponentID[T](w) }}
 }
 
-var staticFillers = []staticFiller{sf[FIface](), sf[FEmptyIface](), sf[FFunc](), sf[FMap](), sf[FPtr](), sf[FChan](),
+// Two distinct types with the same name (declared in different function scopes): they print alike, and are different
+// types all the same.
+func sameNameA() staticFiller {
+	type Settings struct{ V uint64 }
+	return sf[Settings]()
+}
+
+func sameNameB() staticFiller {
+	type Settings struct{ V uint64 }
+	return sf[Settings]()
+}
+
+var staticFillers = []staticFiller{sameNameA(), sameNameB(), sf[FIface](), sf[FEmptyIface](), sf[FFunc](), sf[FMap](), sf[FPtr](), sf[FChan](),
 	sf[FSlice](), sf[FStr](), sf[FInt8](), sf[FEmpty](), sf[FArr](), sf[FBool]()}
 
 func staticFillerOf(n int) (staticFiller, bool) {
@@ -196,6 +208,12 @@ func FillerType(n int) reflect.Type {
 
 // ResType returns the n-th dynamic resource type.
 func ResType(n int) reflect.Type {
+	switch n {
+	case 7:
+		return sameNameA().tp
+	case 8:
+		return sameNameB().tp
+	}
 	if n%11 == 5 && n > 4 {
 		// a resource type that is itself a pointer type, next to its element type (index n-1)
 		return reflect.PtrTo(ResType(n - 1))
